@@ -110,6 +110,100 @@ CATALOG = {
                  "that the pool is topped up and the manager woken afterwards, and that every wait loop terminates in the failure post-state.",
         "note": "Partial: which pids survive is a runtime value and is not decided.",
     },
+    "C11": {
+        "ref": "DESIGN.md section 4 C11",
+        "technique": "static analysis: abstract interpretation of the tracker's per-line dispatch AST over (command, type known?, refcount) compared "
+                     "row by row with the refcounting contract; CFG rules for the barrier/EOF/sweep; protocol literal agreement with the stdlib client AST",
+        "level": "The transition function of the tracker loop is decided completely for its finite abstract domain (every dispatched command plus an "
+                 "unknown one x known/unknown type x refcount absent/1/2/3): REGISTER +1, UNREGISTER delete, MAYBE_UNLINK -1 and cleanup exactly at "
+                 "zero, PROBE nothing, anything else raises before any mutation; the barrier catches BaseException and cannot leave the loop, EOF is "
+                 "the only exit, the sweep runs in finally over every type with folders last; names keep their ':'; client literals are dispatched.",
+        "note": "obligations == discharged on the pinned tree; the interpreter of the dispatch and the extractor are the trusted base (not labelled proof). "
+                "Not decided: OS unlink semantics; atomicity of <=512-byte pipe writes (stdlib/kernel).",
+    },
+    "C12": {
+        "ref": "DESIGN.md section 4 C12",
+        "technique": "static analysis: key agreement between writer (get_preparation_data) and reader (prepare) tables, dominance of ensure_running "
+                     "over fd/pid reads, keep-list provenance, signal-mask pairing on all paths (with correlated-branch pruning), fall-through of the relaunch branch",
+        "level": "Decides that the tracker fd/pid are shipped after ensure_running and installed field-for-field in the child, that the fd is inheritable "
+                 "and in the keep-list, that the tracker ignores SIGINT/SIGTERM before its loop and the spawner blocks them around the spawn and "
+                 "restores the mask in finally, and that a dead tracker is closed, reaped, reset and relaunched by the same call.",
+        "note": "Partial: that all processes of a real tree observe one tracker pid, and the timing of the sweep, are runtime facts and are not decided.",
+    },
+    "C13": {
+        "ref": "DESIGN.md section 4 C13",
+        "technique": "static analysis: must-pass-through of register + finaliser after the semaphore creation, name-term agreement, finally-pairing of "
+                     "unlink/unregister, effect query on __setstate__, points-to of the context factories' return values",
+        "level": "Decides that every created named semaphore is registered under its own name with type 'semlock' and has a finaliser unlinking then "
+                 "unregistering that name on every path, that unpickled copies have none of these effects, that every primitive is built through "
+                 "that constructor, that the loky context hands out loky's classes, and that the tracker sweeps whatever is still registered.",
+        "note": "Partial: the kernel namespace content is not decided. The shape of generated names is deliberately not checked (frozen fragment).",
+    },
+    "C14": {
+        "ref": "DESIGN.md section 4 C14",
+        "technique": "static analysis: constructor-argument table per primitive, role derivation of the three Condition semaphores from wait(), "
+                     "token-balance matching of notify/notify_all, lock context of every Event flag access",
+        "level": "Decides necessary conditions only: the (kind, value, maxvalue) table; wait's ordering/pairing obligations; the token balance of "
+                 "notify and notify_all (#wake tokens = #sleepers grabbed = #woken signals awaited, re-zeroing); Event flag accesses under the "
+                 "condition, set = 1 then notify_all, wait re-reads the flag; get/setstate agreement.",
+        "note": "Partial by nature: correctness of the three-semaphore protocol under every interleaving is a model-checking question and is NOT decided "
+                "by this family; the clauses above are what breaks it structurally.",
+    },
+    "C15": {
+        "ref": "DESIGN.md section 4 C15",
+        "technique": "static analysis: freshness of the installed dispatch table on every path + dominance over registrations, who-may-write shared "
+                     "tables, parameter flow of reducers across constructor/queues/feeder/dumps, arity and role agreement of reducer/rebuild pairs",
+        "level": "Decides scoping (no shared pickling registry is ever mutated by a per-executor pickler; loky's table only at import time), the flow "
+                 "of job/result reducers to their own queue and into the worker-side copy, the pickler-name round trip, and the structural "
+                 "well-formedness of every built-in reducer.",
+        "note": "Partial: equality of behaviour after a pickle round trip is a runtime value and is not decided.",
+    },
+    "C16": {
+        "ref": "DESIGN.md section 4 C16",
+        "technique": "static analysis: dispatch completeness (who constructs wrappers, class hierarchy has __call__), sibling-constructor field "
+                     "agreement, branch table of __reduce__ on keep_wrapper",
+        "level": "Decides that a wrapper is callable iff the wrapped object is, on the instance path, after a round trip and on the class path; that "
+                 "sibling constructors agree on fields and flags; that attribute forwarding excludes exactly the wrapper's fields; that __reduce__ "
+                 "honours keep_wrapper. The pinned tree violated the first clause for classes (D6, repaired by a fix commit).",
+        "note": "Partial: behaviour of arbitrary wrapped objects is not decided.",
+    },
+    "C17": {
+        "ref": "DESIGN.md section 4 C17",
+        "technique": "static analysis: term normalisation in the min/max lattice with helper inlining; guarded return sets of the affinity/cgroup/"
+                     "physical-core helpers",
+        "level": "The returned term of cpu_count() equals max(1, min(OS, AFF, CG, ENV)) as a normal form, hence for ALL configurations of the leaves; "
+                 "the helpers' branches are decided by their guards (ceil(quota/period) only for positive quota and period; 'max'/absent => no limit); "
+                 "the physical-cores path returns exactly {max(user,1) if user < OS, validated physical count, logical fallback with one warning}.",
+        "note": "obligations == discharged; the normaliser and the leaf table are the trusted base. Not decided: what the OS returns for each leaf.",
+    },
+    "C18": {
+        "ref": "DESIGN.md section 4 C18",
+        "technique": "static analysis: constant/provenance checks on the low-level fork/exec arguments, keep-list provenance over all writers of the "
+                     "list, resource pairing of pipe ends on all paths, must-pass-through of the initializer, role agreement of the spawn tuple by points-to",
+        "level": "Decides close_fds=True, pass_fds only from the keep-list, environment overlay order, that no parent pipe end can enter the keep-list, "
+                 "that child ends are closed in the parent, that the initializer precedes the first task on every path and its failure ends the "
+                 "worker, that every spawn ships the same role-correct 8-tuple plus env, the init_main_module protocol and the exit-code mapping.",
+        "note": "Partial: the descriptor table of a live worker is kernel state and is not decided.",
+    },
+    "C19": {
+        "ref": "DESIGN.md section 4 C19",
+        "technique": "static analysis: decision table of the depth guards over (depth, MAX_DEPTH, start method), dominance of the check over resource "
+                     "creation, role agreement of the shipped depth",
+        "level": "Decides the bound exactly: executor creation raises LokyRecursionError iff MAX_DEPTH > 0 and depth >= MAX_DEPTH (or fork and depth >= 1), "
+                 "checked before anything is allocated, for every constructor; the depth a worker sees is its creator's + 1 from the only spawn site "
+                 "and is installed before tasks run; nothing else writes it.",
+        "note": "obligations == discharged; trusted base: the guard evaluator and the extractor.",
+    },
+    "C20": {
+        "ref": "DESIGN.md section 4 C20",
+        "technique": "static analysis: acquire/release pairing over resources (pipe ends, queues, wake-up pipe, processes) on all paths, reachability "
+                     "of the releasing routine from every manager exit",
+        "level": "Decides that every parent-side resource has its release on every normal path of the lifecycle code: both ends of every pipe closed "
+                 "or owned, queues and wake-up pipe closed by the join of the internals which every manager exit reaches, every worker removed from "
+                 "the table reaped, references dropped by shutdown().",
+        "note": "Partial: accumulation as measured counts over repeated lifecycles is not decided; with known findings D3/D4 the releasing paths exist "
+                "but are not reached (reported under C01/C05).",
+    },
 }
 
 NOT_APPLICABLE = {}
